@@ -226,6 +226,9 @@ class Ctx:
             return cls.from_dict_unchecked({n: self.dec(x) for n, x in v[1]}, set_fields=set(v[2]))
         if k == 'wrap' and v[0] == 'ndarray':
             return np.array(self.dec(v[1]))
+        if k == 'wrap' and v[0].startswith('ValueOrList:'):
+            from pane.types import ValueOrList
+            return ValueOrList(self.dec(v[1]), v[0] == 'ValueOrList:val')
         raise ValueError(f'cannot decode {j!r}')
 
     # ---- types ----------------------------------------------------------------------------------
@@ -293,6 +296,9 @@ class Ctx:
             return t.TypeVar(name, *[self.ty(c) for c in cons], **({'bound': self.ty(bound)} if bound is not None else {}))
         if k == 'pattern':
             return re.Pattern if v is None else re.Pattern[SCALARS.get(v, int)]
+        if k == 'vol':
+            from pane.types import ValueOrList
+            return ValueOrList if v is None else ValueOrList[self.ty(v)]
         if k == 'fwd':
             return t.ForwardRef(v)
         if k == 'unsupported':
